@@ -11,6 +11,7 @@ CONSTANTS
   LoopForever = FALSE
   FastPathChecksAtomicQ = TRUE
   Sleeper = FALSE
+  SRun = FALSE
 VIEW MCView
 INVARIANT Safety
 PROPERTY RetSeesCompleted
